@@ -674,7 +674,7 @@ def _exec_history(case, aggressive):
     kind = acc_kind(case["acc"])
     heap = build_heap(case)
     filled, outs, evs = [], [], []
-    problems = []
+    problems, spec_problems = [], []
     for op in case["hist"]:
         if "reset" in op:
             acc.reset()
@@ -705,7 +705,7 @@ def _exec_history(case, aggressive):
             if kind in GROUP_KINDS:
                 for y in ys:
                     if not all(any(m is f for f in filled) for m in y):
-                        problems.append("a yielded group contains a value that was not filled")
+                        spec_problems.append("a yielded group contains a value that was not filled")
                 ys = [GroupSnap(y) for y in ys]
             evs.append({"n": len(ys), "err": err})
             # identity part of the oracle: objects of the new contexts vs everything filled / yielded before
@@ -755,7 +755,7 @@ def _exec_history(case, aggressive):
                 d, c = split_value(filled[op["mf"]])
                 if c is not None:
                     c[op["key"]] = 1
-    return acc, filled, outs, evs, problems
+    return acc, filled, outs, evs, (spec_problems if kind in ALIASING_BY_SPEC else problems)
 
 
 def run_acc(case):
@@ -820,7 +820,7 @@ def compare(case, res, replies):
             if res[key] != m[key]:
                 return "object graph differs in %r: impl %s vs model %s" % (key, _diff(res[key], m[key]), "")
         return None
-    kind = case["acc"]["a"]
+    kind = acc_kind(case["acc"])
     if res["fill_errs"]:
         return "impl raised in fill: %s" % res["fill_errs"]
     if res["evs"] != m["evs"]:
@@ -867,8 +867,10 @@ def oracle(case, res):
             return "values yielded by branches %s share a mutable object" % res["shared"]
         return None
     # accumulators
-    kind = case["acc"]["a"]
+    kind = acc_kind(case["acc"])
     if kind in ALIASING_BY_SPEC:
+        if res["problems"]:
+            return "%s: %s (history %s)" % (kind, res["problems"][0], str(case["hist"])[:400])
         return None
     if "oracle_error" in res:
         raise RuntimeError(res["oracle_error"])
@@ -986,29 +988,47 @@ def gen_split_case(rng, mode=None, aliased=None, copy_buf=None):
             "heap": heap, "flow": flow, "aliased": aliased}
 
 
+_SUM, _CNT = {"a": "sum"}, {"a": "count", "name": "n"}
+_MEAN = {"a": "mean", "seq": None, "poe": False}
 ACC_KINDS = [
     {"a": "sum"}, {"a": "dsum"}, {"a": "count", "name": "n"},
     {"a": "mean", "seq": None, "poe": False}, {"a": "mean", "seq": None, "poe": True},
-    {"a": "mean", "seq": "sum", "poe": False}, {"a": "mean", "seq": {"count": "n_ev"}, "poe": True},
+    {"a": "mean", "seq": "sum", "poe": False}, {"a": "mean", "seq": "dsum", "poe": False},
+    {"a": "mean", "seq": {"count": "n_ev"}, "poe": True},
     {"a": "vmc", "corrected": True, "poe": False}, {"a": "vmc", "corrected": False, "poe": True},
-    {"a": "vectorize", "dim": 2}, {"a": "histogram"}, {"a": "sib", "var": "x", "lo": 0, "hi": 3},
-    {"a": "store"}, {"a": "keeplast"},
+    {"a": "vectorize", "dim": 2}, {"a": "vec_list"}, {"a": "histogram"}, {"a": "sib", "var": "x", "lo": 0, "hi": 3},
+    {"a": "graph"},
+    {"a": "store"}, {"a": "store_group"}, {"a": "groupby", "key": "g"}, {"a": "keeplast"},
+    {"a": "zip", "subs": [_SUM, _CNT]}, {"a": "zip", "subs": [_SUM, _SUM]}, {"a": "zip", "subs": [_CNT, _MEAN, {"a": "histogram"}]},
+    {"a": "zip", "subs": [_MEAN]}, {"a": "zip", "subs": [{"a": "reqsum"}, {"a": "reqsum"}]},
+    {"a": "fcseq", "steps": [{"s": "var", "name": "v"}], "term": _SUM},
+    {"a": "fcseq", "steps": [{"s": "tag", "name": "a"}, {"s": "count", "name": "c"}], "term": _CNT},
+    {"a": "fillcompute", "of": _MEAN}, {"a": "fillcompute", "of": {"a": "histogram"}},
 ]
-ORACLE_ONLY_KINDS = [{"a": "graph"}, {"a": "zip", "name": "n"}, {"a": "zip_same"}, {"a": "split_fc", "name": "n"},
-                     {"a": "fc_seq"}, {"a": "fillcompute"}, {"a": "mean_dsum"}, {"a": "vec_list"}]
+ORACLE_ONLY_KINDS = [{"a": "split_fc", "subs": [_SUM, _CNT, _MEAN]}]
+REFILL_KINDS = ("sum", "dsum", "count", "store", "keeplast")
 
 
 def _acc_item(kind, i, c):
-    if kind in ("vectorize", "vec_list"):
-        return {"d": {"t": [i, i + 1]}, "c": c}
-    if kind == "graph":
+    if kind in ("vectorize", "vec_list", "graph"):
         return {"d": {"t": [i, i + 1]}, "c": c}
     return {"d": i, "c": c}
 
 
+def _acc_ctx(rng, kind, i):
+    ctx = gen_ctx(rng, i)
+    if kind == "groupby" and rng.random() < 0.8:
+        ctx = dict(ctx, g=rng.randint(1, 2))
+    return ctx
+
+
+def _can_reset(acc):
+    return acc["a"] in HAS_RESET or (acc["a"] == "mean" and not isinstance(acc["seq"], dict))
+
+
 def gen_acc_case(rng, acc=None, nops=None):
     acc = acc or rng.choice(ACC_KINDS + ORACLE_ONLY_KINDS)
-    kind = acc["a"]
+    kind = acc_kind(acc)
     nops = nops or rng.randint(1, 8)
     heap, hist = {}, []
     k = 0
@@ -1018,19 +1038,21 @@ def gen_acc_case(rng, acc=None, nops=None):
         if r < 0.45:
             c = None
             if rng.random() < 0.85:
-                heap[str(k)] = enc(gen_ctx(rng, nf))
+                heap[str(k)] = enc(_acc_ctx(rng, kind, nf))
                 c = k
                 k += 1
             hist.append({"f": _acc_item(kind, rng.randint(0, 4), c)})
             nf += 1
-        elif r < 0.8:
+        elif r < 0.78:
             hist.append({"c": 1})
             nc += 1
-        elif r < 0.88 and nc:
+        elif r < 0.86 and nc:
             hist.append({"my": rng.randint(0, nc), "key": rng.choice(NAMES)})
-        elif r < 0.95 and nf:
+        elif r < 0.92 and nf:
             hist.append({"mf": rng.randint(0, nf - 1), "key": rng.choice(NAMES)})
-        elif nc and kind in ("sum", "dsum", "count", "store", "keeplast"):
+        elif r < 0.96 and _can_reset(acc):
+            hist.append({"reset": 1})
+        elif nc and acc["a"] in REFILL_KINDS:
             hist.append({"rf": rng.randint(0, nc)})
         else:
             hist.append({"c": 1})
@@ -1038,10 +1060,10 @@ def gen_acc_case(rng, acc=None, nops=None):
     return {"op": "acc", "acc": acc, "heap": heap, "hist": hist, "may_raise": False}
 
 
-def enum_acc_histories(maxlen):
+def enum_acc_histories(maxlen, with_reset):
     """all histories up to maxlen operations over the alphabet fill(value with context) / fill(bare) / compute /
-    mutate the last filled value"""
-    alphabet = ["fc", "fb", "c", "mf"]
+    mutate the last filled value (/ reset)"""
+    alphabet = ["fc", "fb", "c", "mf"] + (["rs"] if with_reset else [])
     for n in range(1, maxlen + 1):
         for word in itertools.product(alphabet, repeat=n):
             if "c" not in word:
@@ -1054,7 +1076,10 @@ def hist_of_word(kind, word):
     k = nf = 0
     for w in word:
         if w == "fc":
-            heap[str(k)] = enc({"n": {"i": nf}} if nf % 2 == 0 else {"x": nf})
+            ctx = {"n": {"i": nf}} if nf % 2 == 0 else {"x": nf}
+            if kind == "groupby":
+                ctx["g"] = 1 + (nf % 3) // 2
+            heap[str(k)] = enc(ctx)
             hist.append({"f": _acc_item(kind, nf + 1, k)})
             k += 1
             nf += 1
@@ -1063,6 +1088,8 @@ def hist_of_word(kind, word):
             nf += 1
         elif w == "c":
             hist.append({"c": 1})
+        elif w == "rs":
+            hist.append({"reset": 1})
         elif w == "mf":
             if nf:
                 hist.append({"mf": nf - 1, "key": "m"})
@@ -1070,24 +1097,25 @@ def hist_of_word(kind, word):
 
 
 def gen_cases(ctx):
+    """a generator: the thorough tier is enumerated lazily"""
     rng = ctx.rng
-    cases = []
     thorough = ctx.tier == "thorough"
     # the seeded-style regression scenarios (a branch stopped in the middle of a buffer; Mean with a multi-valued sum_seq)
-    cases.extend(fixed_cases())
+    for c in fixed_cases():
+        yield c
     # accumulators: all short histories
     maxlen = 5 if thorough else 4
     for acc in ACC_KINDS + ORACLE_ONLY_KINDS:
-        for word in enum_acc_histories(maxlen if acc in ACC_KINDS else maxlen - 1):
-            heap, hist = hist_of_word(acc["a"], word)
-            cases.append({"op": "acc", "acc": acc, "heap": heap, "hist": hist, "may_raise": False})
+        rs = _can_reset(acc)
+        for word in enum_acc_histories(maxlen - 1 if (rs or acc in ORACLE_ONLY_KINDS) else maxlen, rs):
+            heap, hist = hist_of_word(acc_kind(acc), word)
+            yield {"op": "acc", "acc": acc, "heap": heap, "hist": hist, "may_raise": False}
     n_split = 120000 if thorough else 3000
-    n_acc = 50000 if thorough else 1500
+    n_acc = 60000 if thorough else 2000
     for _ in range(n_split):
-        cases.append(gen_split_case(rng))
+        yield gen_split_case(rng)
     for _ in range(n_acc):
-        cases.append(gen_acc_case(rng))
-    return cases
+        yield gen_acc_case(rng)
 
 
 def fixed_cases():
@@ -1134,17 +1162,29 @@ def classify(case, res):
         if "e" in res:
             labels.append("split:raised:" + res["e"])
         return labels
-    labels = ["acc:" + case["acc"]["a"]]
+    labels = ["acc:" + jshort(case["acc"])]
     for e in res.get("evs", []):
         if e.get("err"):
             labels.append("acc-error:" + e["err"])
     return labels
 
 
+def jshort(a):
+    if a["a"] in ("zip", "split_fc"):
+        return a["a"] + "[" + ",".join(jshort(x) for x in a["subs"]) + "]"
+    if a["a"] == "fcseq":
+        return "fcseq[" + ",".join(st["s"] for st in a["steps"]) + ";" + jshort(a["term"]) + "]"
+    if a["a"] == "fillcompute":
+        return "fillcompute[" + jshort(a["of"]) + "]"
+    if a["a"] == "mean":
+        return "mean(%s,%s)" % (a["seq"] if not isinstance(a["seq"], dict) else "sumcount", a["poe"])
+    return a["a"]
+
+
 def signature(case, failure):
     if case["op"] == "split":
         return "split:%s:%s" % (case["mode"], ";".join(_show_branch(b) for b in case["branches"]))
-    return "acc:%s:%s" % (case["acc"]["a"], "".join(sorted(k for op in case["hist"] for k in op if k in ("f", "c", "my", "mf", "rf"))))
+    return "acc:%s:%s" % (jshort(case["acc"]), "".join(sorted(k for op in case["hist"] for k in op if k in ("f", "c", "my", "mf", "rf", "reset"))))
 
 
 def shrink(case):
